@@ -101,6 +101,24 @@ func c06Cause(req SetReq, wantGet, gotGet string) string {
 	return "overwrite-or-creation-not-undone"
 }
 
+// c06CauseIn attributes a difference to a cause, looking at the whole history: the consequences of the two recorded
+// defects are named after them, whatever request happens to be rolled back when they show.
+//   - a request of the history deletes a node and writes beneath it in one go (its update is stored but hidden by
+//     the request's own tombstone; a later rollback may bring it to light, on the device too);
+//   - second: the change rolled back first was a subtree delete, whose children a rollback does not bring back, so
+//     the state "two changes ago" cannot be reached by the second rollback either.
+func c06CauseIn(hist []string, req SetReq, firstRolledBack *SetReq, want, got string) string {
+	for _, name := range hist {
+		if c03DeleteCoversUpdate(c06ByName(name)) {
+			return "after-delete-and-update-below-in-one-request"
+		}
+	}
+	if firstRolledBack != nil && c06Cause(*firstRolledBack, want, got) == "subtree-delete-not-restored" && c06Cause(req, want, got) != "subtree-delete-not-restored" {
+		return "after-unrestored-subtree-delete"
+	}
+	return c06Cause(req, want, got)
+}
+
 // the C03 alphabet plus a Set that the model rejects (it stays in the log as a failed transaction)
 func c06Alphabet() []SetReq {
 	return append(append([]SetReq{}, c03Alphabet...), SetReq{Name: "leafA=bad (rejected by the model)", Ops: []ReqOp{{Kind: "update", Target: "T1", Path: "/cont/leafA", Val: "bad"}}})
@@ -240,10 +258,10 @@ func checkC06(rc *RunCtx) *Report {
 						continue
 					}
 					if g := getAllText(w, targets); g != getBefore {
-						rep.Violate("stored-configuration-not-restored/"+c06Cause(r, getBefore, g), fmt.Sprintf("history %v then rollback(%d): Get returns %s, before the change it returned %s", hist, idx, g, getBefore), replay)
+						rep.Violate("stored-configuration-not-restored/"+c06CauseIn(hist, r, nil, getBefore, g), fmt.Sprintf("history %v then rollback(%d): Get returns %s, before the change it returned %s", hist, idx, g, getBefore), replay)
 					}
 					if d := devText(w); d != devBefore {
-						rep.Violate("device-not-restored/"+c06Cause(r, devBefore, d), fmt.Sprintf("history %v then rollback(%d): devices hold %s, before the change they held %s", hist, idx, d, devBefore), replay)
+						rep.Violate("device-not-restored/"+c06CauseIn(hist, r, nil, devBefore, d), fmt.Sprintf("history %v then rollback(%d): devices hold %s, before the change they held %s", hist, idx, d, devBefore), replay)
 					}
 					// 3. a rollback cannot be rolled back
 					rbIdx := lastTxIndex(w)
@@ -271,10 +289,10 @@ func checkC06(rc *RunCtx) *Report {
 						} else {
 							prevReq := c06ByName(n.hist[len(n.hist)-1])
 							if g := getAllText(w, targets); g != gBB {
-								rep.Violate("stored-configuration-not-restored/second/"+c06Cause(prevReq, gBB, g), fmt.Sprintf("history %v, rollback(%d), rollback(%d): Get returns %s, two changes ago it returned %s", hist, idx, n.lastTx, g, gBB), replay)
+								rep.Violate("stored-configuration-not-restored/second/"+c06CauseIn(hist, prevReq, &r, gBB, g), fmt.Sprintf("history %v, rollback(%d), rollback(%d): Get returns %s, two changes ago it returned %s", hist, idx, n.lastTx, g, gBB), replay)
 							}
 							if d := devText(w); d != dBB {
-								rep.Violate("device-not-restored/second/"+c06Cause(prevReq, dBB, d), fmt.Sprintf("history %v, rollback(%d), rollback(%d): devices hold %s, two changes ago %s", hist, idx, n.lastTx, d, dBB), replay)
+								rep.Violate("device-not-restored/second/"+c06CauseIn(hist, prevReq, &r, dBB, d), fmt.Sprintf("history %v, rollback(%d), rollback(%d): devices hold %s, two changes ago %s", hist, idx, n.lastTx, d, dBB), replay)
 							}
 							// a change that was rolled back is not the configuration's latest change any more
 							g5, d5, i5 := getAllText(w, targets), devText(w), indexText(w)
